@@ -644,7 +644,7 @@ func runQueued(p Params) (res Result) {
 	r := stack.NewRunner(st, d)
 	urr := stack.RuleOp{Verb: "create", Kind: "URR", ID: 1, Method: 2, Trig: 2}
 	for _, op := range []stack.Op{{Kind: "assoc", Peer: 0, Node: 0, Sess: -1}, {Kind: "assoc", Peer: 1, Node: 1, Sess: -1},
-		{Kind: "est", Peer: 1, Node: 1, Sess: -1, CP: 0x21, Rules: []stack.RuleOp{urr}}} {
+		{Kind: "est", Peer: 1, Node: 1, Sess: -1, CP: 0x21, Rules: []stack.RuleOp{urr, {Verb: "create", Kind: "FAR", ID: 1, Action: 0x04, HasAction: true}, {Verb: "create", Kind: "PDR", ID: 1, Prec: 1, SrcIf: 1, UEIP: "10.60.0.1", FAR: 1}}}} {
 		if o := r.Step(op); o.Dead != nil || o.Stuck {
 			res.Inconclusive = "prefix failed"
 			return
